@@ -47,16 +47,35 @@ def register(R):
 
     R.inline_fn(R_ + "_run_user")
     # ---- _got_user_exception: every constituent is shown to the case (onException) and then recorded in X ------------
+    # xl(A, t): the exceptions an exc_info triple t stands for -- its exception itself, or (a MultipleExceptions with constituents) the
+    # exceptions its constituents stand for, recursively, in order.  A is the `args` field of all objects (exceptions are not modified
+    # meanwhile: the frame condition of every function here covers f:args).
+    R.function("xl", ["farr", "val"], "seq")
+    R.function("xfl", ["farr", "seq", "int"], "seq")
+    R.define("margs_", ["A", "e"], "elems(fsel(A, e))")
+    R.define("is_multi_", ["A", "t"], "at(elems(t), 0) is MultipleExceptions and len(margs_(A, at(elems(t), 1))) > 0")
+    AT = {"A": "farr", "t": "val"}
+    R.axiom("xl_leaf", AT, "implies(not is_multi_(A, t), xl(A, t) == [at(elems(t), 1)])", patterns=["xl(A, t)"])
+    R.axiom("xl_multi", AT, "implies(is_multi_(A, t), xl(A, t) == xfl(A, margs_(A, at(elems(t), 1)), len(margs_(A, at(elems(t), 1)))))", patterns=["xl(A, t)"])
+    R.axiom("xfl_0", {"A": "farr", "s": "seq"}, "xfl(A, s, 0) == []", patterns=["xfl(A, s, 0)"])
+    R.axiom("xfl_step", {"A": "farr", "s": "seq", "k": "int"},
+            "implies(0 <= k and k < len(s), xfl(A, s, k + 1) == concat(xfl(A, s, k), xl(A, at(s, k))))", patterns=["xfl(A, s, k + 1)"])
+    # by induction over the (finite) nesting: every triple stands for at least one exception
+    R.axiom("xl_nonempty", AT, "len(xl(A, t)) > 0", patterns=["xl(A, t)"])
+    # ---- _got_user_exception: every constituent is shown to the case (onException) and then recorded in X ------------
     R.contract(R_ + "_got_user_exception", props=["C01", "C05"], params={"exc_info": "(class,exc,any)", "tb_label": "any"}, context=CTX,
-               requires=DISTINCT, frame_hist=True, modifies=["list(self._exceptions)", "hist(self.case)"], returns="Sentinel",
+               requires=DISTINCT, frame_hist=True,
+               modifies=["list(self._exceptions)", "hist(self.case)"], returns="Sentinel",
                ensures=["result is self.exception_caught",
                         "stages(hist(self.case)) == stages(old(hist(self.case)))",
+                        # exactly the exceptions the triple stands for are recorded, in order -- nested MultipleExceptions unpacked recursively
+                        "%s == %s + xl(FIELD('args'), exc_info)" % (X, X0),
                         "prefix_of(%s, %s)" % (X0, X), "len(%s) > len(%s)" % (X, X0),
                         # an exception that is not a MultipleExceptions with constituents is recorded itself, after onException saw it
-                        "implies(not (exc_info[0] is MultipleExceptions and len(exc_info[1].args) > 0),"
+                        "implies(not is_multi_(FIELD('args'), exc_info),"
                         " %s == %s + [exc_info[1]] and "
                         " hist(self.case) == snoc(old(hist(self.case)), call('onException', [exc_info, tb_label], {})))" % (X, X0)],
-               loops={0: dict(invariant=["prefix_of(%s, %s)" % (X0, X), "len(%s) >= len(%s) + _i" % (X, X0),
+               loops={0: dict(invariant=["%s == %s + xfl(FIELD('args'), _seq, _i)" % (X, X0), "unchanged('f:args')",
                                          "stages(hist(self.case)) == stages(old(hist(self.case)))",
                                          "self._exceptions is old(self._exceptions)", "self.case is old(self.case)",
                                          "self.exception_caught is old(self.exception_caught)"])})
